@@ -464,6 +464,18 @@ mod routing {
         };
     }
 
+    /// a user-defined basis function type (the trait is public): arity beyond what closures can have
+    pub struct WideFn<const N: usize> {
+        pub tag: f64,
+    }
+    pub struct WideArgs<const N: usize>;
+    impl<T: Sc, const N: usize> varpro::prelude::BasisFunction<T, WideArgs<N>> for WideFn<N> {
+        fn eval(&self, x: &DVector<T>, params: &[T]) -> DVector<T> {
+            encode::<T>(x, &params[..N], self.tag)
+        }
+        const ARGUMENT_COUNT: usize = N;
+    }
+
     /// one function of the model under test: None = invariant function
     #[derive(Debug, Clone)]
     pub struct Func {
@@ -518,6 +530,13 @@ mod routing {
                 Some(f) => {
                     let names: Vec<String> = f.params.iter().map(|&k| d.names[k].clone()).collect();
                     let ar = f.params.len();
+                    if ar == 11 {
+                        b = b.function(&names, WideFn::<11> { tag: 1000.0 + j as f64 });
+                        for &q in &f.deriv_order {
+                            b = b.partial_deriv(names[q].clone(), WideFn::<11> { tag: 2000.0 + 100.0 * j as f64 + q as f64 });
+                        }
+                        continue;
+                    }
                     b = by_arity!(ar, 1000.0 + j as f64, |c| b.function(&names, c));
                     for &q in &f.deriv_order {
                         let tag = 2000.0 + 100.0 * j as f64 + q as f64;
@@ -705,6 +724,14 @@ mod routing {
                         }
                     }
                 }
+            }
+        }
+        // a user-defined basis function type with 11 arguments (closures stop at 10) on a 12-parameter model
+        {
+            let names: Vec<String> = (0..12).map(|k| format!("w{}", k)).collect();
+            for (params, order) in [((0..11).collect::<Vec<usize>>(), (0..11).collect::<Vec<usize>>()), ((1..12).rev().collect(), (0..11).rev().collect()), ((0..11).map(|t| (t * 5 + 3) % 12).collect(), (0..11).map(|t| (t + 4) % 11).collect())] {
+                let funcs = complete(&names, vec![Some(Func { params, deriv_order: order }), None]);
+                visit(ModelDesc { names: names.clone(), funcs });
             }
         }
         // many parameters (past 64 and 128): one single-parameter function per parameter, plus functions of arity 3 and 10
